@@ -16,6 +16,11 @@
 // id. At the end all slots are destroyed: every resource still owned is closed exactly once, every
 // released one never.
 //
+// File-handle part (fd_ops=...): the same op alphabet on nop::UniqueFileHandle (FileHandlePolicy, real
+// descriptors). Every resource is a dup() of one memfd; descriptor 0 is freed before each case so the
+// first handle of a case owns fd 0. Oracle after every step: each descriptor the model says is owned or
+// released still refers to the memfd (fstat dev/ino), each one the model says is closed does not.
+//
 // Drivers: exhaustive sequences (length <=4 quick / <=5 thorough) over a 22-letter alphabet on 2 slots;
 // rapidcheck tapes (<=60 ops on 4 slots); --replay.
 #include <cinttypes>
@@ -26,6 +31,12 @@
 #include <set>
 #include <sstream>
 
+#include <fcntl.h>
+#include <sys/mman.h>
+#include <sys/stat.h>
+#include <unistd.h>
+
+#include <nop/types/file_handle.h>
 #include <nop/types/handle.h>
 
 #include "kit/core.h"
@@ -247,6 +258,133 @@ static std::string run_ops(const std::vector<Op>& ops, Flags& f, Report& rep) {
   return result;
 }
 
+// ---- file-handle part: nop::UniqueFileHandle over real descriptors --------------------------------
+static int g_base_fd = -1;            // the memfd every resource is a dup() of (kept at a high number)
+static dev_t g_base_dev; static ino_t g_base_ino;
+static bool fd_is_ours(int fd) {
+  struct stat st;
+  return fd >= 0 && fstat(fd, &st) == 0 && st.st_dev == g_base_dev && st.st_ino == g_base_ino;
+}
+static bool fd_setup() {
+  if (g_base_fd >= 0) return true;
+  int m = memfd_create("c15", 0); if (m < 0) return false;
+  g_base_fd = fcntl(m, F_DUPFD, 300); close(m); if (g_base_fd < 0) return false;
+  struct stat st; if (fstat(g_base_fd, &st) != 0) return false;
+  g_base_dev = st.st_dev; g_base_ino = st.st_ino;
+  int keep = fcntl(0, F_DUPFD, 301); (void)keep;   // stdin (if any) moves out of the way; never restored, nothing here reads it
+  close(0);
+  return true;
+}
+static std::string fd_case_text(const std::vector<Op>& ops) { return "prop=C15 fd_ops=" + ops_text(ops); }
+
+static std::string run_ops_fd(const std::vector<Op>& ops, Flags& f, Report& rep, bool* fd0_closed_by_handle) {
+  if (!fd_setup()) return "HARNESS: memfd_create / dup failed";
+  std::string result;
+  std::map<int, ResState> res;       // by descriptor number; a re-used number denotes the new resource
+  {
+    std::optional<nop::UniqueFileHandle> slot[kSlots];
+    bool live[kSlots] = {false, false, false, false};
+    int held[kSlots] = {-1, -1, -1, -1};
+    long made = 0;
+    auto at = [&](size_t i, const std::string& cls, const std::string& detail) {
+      return cls + ": " + detail + " at step " + std::to_string(i) + (i < ops.size() ? " (" + op_text(ops[i]) + ")" : " (final destruction)");
+    };
+    auto model_close = [&](int s) { if (held[s] >= 0) { if (held[s] == 0) *fd0_closed_by_handle = true; res[held[s]] = R_Closed; held[s] = -1; } };
+    auto invariant = [&](size_t i) -> std::string {
+      for (auto& kv : res) {
+        const bool ours = fd_is_ours(kv.first);
+        if (kv.second == R_Closed && ours) return at(i, "missing-close", "descriptor " + std::to_string(kv.first) + " should have been closed by its UniqueFileHandle and is still open");
+        if (kv.second == R_Owned && !ours) return at(i, "close-early", "descriptor " + std::to_string(kv.first) + " is owned by a live handle and is closed");
+        if (kv.second == R_Released && !ours) return at(i, "close-released", "released descriptor " + std::to_string(kv.first) + " was closed");
+      }
+      for (int s = 0; s < kSlots; s++) {
+        if (!live[s]) continue;
+        const nop::UniqueFileHandle& h = *slot[s];
+        if (h.get() != held[s]) return at(i, "wrong-owner", "slot " + std::to_string(s) + " get() is " + std::to_string(h.get()) + ", the model says " + std::to_string(held[s]));
+        if (static_cast<bool>(h) != (held[s] >= 0)) return at(i, "wrong-bool", "slot " + std::to_string(s) + " bool is " + (static_cast<bool>(h) ? "true" : "false") + " holding " + std::to_string(held[s]));
+      }
+      return "";
+    };
+    for (size_t i = 0; i < ops.size() && result.empty(); i++) {
+      const Op& op = ops[i];
+      const int a = op.a, b = op.b;
+      rep.current_detail = op_text(op) + " at step " + std::to_string(i);
+      switch (op.kind) {
+        case K_Construct: {
+          if (live[a]) break;
+          int id;
+          if (made++ % 2 == 0) { id = dup(g_base_fd); slot[a].emplace(id); }
+          else { slot[a].emplace(nop::UniqueFileHandle::AsDuplicate(nop::FileHandle{g_base_fd})); id = slot[a]->get(); }
+          if (id < 0 || !fd_is_ours(id)) { result = at(i, "HARNESS", "dup failed"); break; }
+          live[a] = true; held[a] = id; res[id] = R_Owned;
+          break; }
+        case K_Default:
+          if (live[a]) break;
+          slot[a].emplace(); live[a] = true; held[a] = -1;
+          break;
+        case K_MoveConstruct:
+          if (live[a] || !live[b] || a == b) break;
+          f.move_construct = true;
+          slot[a].emplace(std::move(*slot[b])); live[a] = true; held[a] = held[b]; held[b] = -1;
+          break;
+        case K_MoveAssign: {
+          if (!live[a] || !live[b]) break;
+          nop::UniqueFileHandle& dst = *slot[a]; nop::UniqueFileHandle& srch = *slot[b];
+          dst = std::move(srch);
+          if (a == b) { f.self_assign = true; break; }
+          if (held[a] >= 0) f.assign_over_nonempty = f.slot_over_nonempty = true;
+          if (held[b] < 0) f.assign_from_empty = true;
+          model_close(a); held[a] = held[b]; held[b] = -1;
+          break; }
+        case K_Release: {
+          if (!live[a]) break;
+          const int got = slot[a]->release();
+          if (got != held[a]) { result = at(i, "wrong-release", "release() returned " + std::to_string(got) + ", the handle owned " + std::to_string(held[a])); break; }
+          if (held[a] >= 0) { f.release = true; res[held[a]] = R_Released; held[a] = -1; } else f.release_empty = true;
+          break; }
+        case K_Close:
+          if (!live[a]) break;
+          if (held[a] >= 0) f.close_owned = true; else f.close_empty = true;
+          slot[a]->close(); model_close(a);
+          break;
+        case K_Get:
+          if (!live[a]) break;
+          if (slot[a]->get() != held[a]) result = at(i, "wrong-owner", "get() is " + std::to_string(slot[a]->get()) + ", the model says " + std::to_string(held[a]));
+          break;
+        case K_Bool:
+          if (!live[a]) break;
+          if (static_cast<bool>(*slot[a]) != (held[a] >= 0)) result = at(i, "wrong-bool", std::string("bool is ") + (static_cast<bool>(*slot[a]) ? "true" : "false") + " holding " + std::to_string(held[a]));
+          break;
+        case K_Destroy:
+          if (!live[a]) break;
+          if (held[a] >= 0) f.destroy_owner = true;
+          slot[a].reset(); live[a] = false; model_close(a);
+          break;
+        default: {
+          if (!live[a]) break;
+          if (held[a] >= 0) f.assign_over_nonempty = true;
+          f.assign_temp = true;
+          // the new descriptor exists before the old one is closed, so it gets a different number
+          int id = dup(g_base_fd);
+          if (id < 0) { result = at(i, "HARNESS", "dup failed"); break; }
+          { nop::UniqueFileHandle temp(id); *slot[a] = std::move(temp); }
+          model_close(a); held[a] = id; res[id] = R_Owned;
+          break; }
+      }
+      if (result.empty()) result = invariant(i);
+    }
+    for (int s = 0; s < kSlots && result.empty(); s++) {
+      if (!live[s]) continue;
+      rep.current_detail = "final destruction of slot " + std::to_string(s);
+      slot[s].reset(); live[s] = false; model_close(s);
+      result = invariant(ops.size());
+    }
+  }
+  // the harness closes what was released (and, after a failure, whatever is left) so the next case starts with fd 0 free
+  for (auto& kv : res) if (fd_is_ours(kv.first)) close(kv.first);
+  return result;
+}
+
 static std::string class_of(const std::string& m) { size_t p = m.find(':'); return p == std::string::npos ? m : m.substr(0, p); }
 
 int main(int argc, char** argv) {
@@ -261,6 +399,15 @@ int main(int argc, char** argv) {
     while (fgets(line, sizeof line, fp)) if (line[0] != '#' && line[0] != '\n') text = line;
     fclose(fp);
     const std::string head = "prop=C15 uh_ops=";
+    const std::string fhead = "prop=C15 fd_ops=";
+    if (text.compare(0, fhead.size(), fhead) == 0) {
+      std::vector<Op> ops;
+      if (!ops_parse(text.substr(fhead.size()), &ops)) { fprintf(stderr, "bad replay file\n"); return 2; }
+      Flags f; bool z = false; rep.current_case = fd_case_text(ops);
+      std::string m = run_ops_fd(ops, f, rep, &z);
+      if (!m.empty()) { printf("REPLAY-FAIL %s\n", m.c_str()); return 1; }
+      printf("REPLAY-PASS\n"); return 0;
+    }
     if (text.compare(0, head.size(), head) != 0) { fprintf(stderr, "bad replay file\n"); return 2; }
     std::vector<Op> ops;
     if (!ops_parse(text.substr(head.size()), &ops)) { fprintf(stderr, "bad replay file\n"); return 2; }
@@ -345,6 +492,59 @@ int main(int argc, char** argv) {
       }
     }
     rep.label("random<=60ops:4slots", r.successes);
+  }
+
+  // (c) UniqueFileHandle over real descriptors: exhaustive on 2 slots, then random on 4 slots
+  {
+    std::set<std::string> fd_keys;
+    auto record_fd = [&](const std::string& m, const std::vector<Op>& ops) {
+      std::string key = "C15|UniqueFileHandle|" + class_of(m);
+      if (fd_keys.insert(key).second) rep.fail(m, fd_case_text(ops), key);
+    };
+    auto account_fd = [&](const Flags& f, const std::vector<Op>& ops, bool fd0) {
+      if (fd0) rep.label("fd:handle-closes-descriptor-0");
+      if (f.release) rep.label("fd:release-owned");
+      if (f.assign_over_nonempty) { rep.label("fd:move-assign-over-nonempty"); rep.nontriv(hash_str(fd_case_text(ops))); }
+    };
+    const size_t L = thorough ? 4 : 3;
+    std::vector<Op> alpha;
+    if (!ops_parse("C0 C1 D0 D1 M01 M10 A00 A01 A10 A11 T0 T1 R0 R1 X0 X1 G0 G1 B0 B1 K0 K1", &alpha)) abort();
+    long seqs = 0; bool failed = false;
+    std::vector<Op> ops;
+    for (size_t len = 1; len <= L && !failed; len++) {
+      std::vector<size_t> idx(len, 0);
+      for (long ord = 0;; ord++) {
+        if (ord % a.nshards == a.shard) {
+          ops.clear();
+          for (size_t k = 0; k < len; k++) ops.push_back(alpha[idx[k]]);
+          rep.current_case = fd_case_text(ops); rep.evaluations++; seqs++;
+          Flags f; bool z = false;
+          std::string m = run_ops_fd(ops, f, rep, &z);
+          if (!m.empty()) { record_fd(m, ops); failed = true; break; }
+          account_fd(f, ops, z);
+        }
+        size_t k = len;
+        while (k > 0 && ++idx[k - 1] == alpha.size()) idx[--k] = 0;
+        if (k == 0) break;
+      }
+    }
+    rep.label(std::string("fd:exhaustive:len<=") + std::to_string(L) + ":alphabet22:2slots", seqs);
+    const long total = (thorough ? 60000 : 2000) * a.scale / a.nshards;
+    const uint64_t seed = (a.seed * 0x100000001b3ull) ^ hash_str("C15/filehandle") ^ ((uint64_t)a.shard << 40);
+    TapeRun r = rc_tapes(seed, (int)total, 100, 3.5, [&](const std::vector<uint64_t>& tape) {
+      Tape t(tape);
+      std::vector<Op> o2 = decode_ops(t, kSlots, 60);
+      rep.current_case = fd_case_text(o2); rep.evaluations++;
+      Flags f; bool z = false;
+      std::string m = run_ops_fd(o2, f, rep, &z);
+      if (m.empty()) account_fd(f, o2, z);
+      return m;
+    });
+    if (!r.ok) {
+      if (r.message.rfind("HARNESS:", 0) == 0) { rep.notes["harness_error"] = r.message; rep.fail(r.message, "", "harness"); }
+      else { Tape t(r.tape); std::vector<Op> o2 = decode_ops(t, kSlots, 60); record_fd(r.message, o2); rep.notes["fd-random-failure"] = r.message + " | " + fd_case_text(o2); }
+    }
+    rep.label("fd:random<=60ops:4slots", r.successes);
   }
 
   rep.exhaustive = false;
